@@ -27,6 +27,9 @@ func main() {
 			"paths:\n  p:\n    overridePublisher: yes\n", 0,
 			[]pmlib.PubSpec{{ID: "A", Writes: 1, Stay: true, Pre: true}, {ID: "B", Writes: 1, Linger: true}}, []pmlib.RdrSpec{{ID: "R1", Pre: true}, {ID: "R2", Twice: true}}, 2, 3),
 	}
+	scn = append(scn, mk("max2-with-hidden-reader", "maxReaders 2; publisher A; a hidden reader H (what the HLS muxer is) attached first, then R1, R2, R3",
+		"paths:\n  p:\n    maxReaders: 2\n", 2,
+		[]pmlib.PubSpec{{ID: "A", Writes: 1, Pre: true, Linger: true}}, []pmlib.RdrSpec{{ID: "H", Pre: true, Hidden: true}, {ID: "R1"}, {ID: "R2"}, {ID: "R3", Detach: true}}, 2, 3))
 	// readers held for an on-demand publisher are attached all at once when it arrives: the limit still holds
 	odConf := pmlib.LoadConf("paths:\n  p:\n    maxReaders: 1\n    runOnDemand: vcmd demand\n    runOnDemandStartTimeout: 10s\n    runOnDemandCloseAfter: 10s\n")
 	scn = append(scn, &vexplore.Scenario{
